@@ -17,7 +17,7 @@ def splitBar (ws : List String) : List (List String) :=
 
 def step (cur : Option Stmt) (line : String) : Option Stmt × List String :=
   match line.trimAscii.toString.splitOn " " with
-  | ["print"] => (cur, [s!"K context {Covfie.Imp.contextSexp}"] ++ Ref.all.map (fun (n, p) => s!"K {n} {p.toSexp}") ++
+  | ["print"] => (cur, [s!"K context {Covfie.Imp.contextSexp}", s!"K morton_pdep {Covfie.Imp.pdepSexp}"] ++ Ref.all.map (fun (n, p) => s!"K {n} {p.toSexp}") ++
       Covfie.Lin.Ref.all.map (fun (n, p) => s!"K {n} {p.toSexp}") ++
       Covfie.RImp.Ref.all.map (fun (n, p) => s!"K {n} {Covfie.RImp.Ref.text n p}") ++
       Covfie.Heap.Ref.all.map (fun (n, t) => s!"K {n} {t}") ++
